@@ -289,8 +289,82 @@ def custom_landscape_case(ctx: Ctx, stream: str, i: int) -> None:
     ctx.case(f'custom:{cfg}', True, sample={'custom_landscape': cfg})
 
 
+def replace_case(ctx: Ctx, stream: str, i: int) -> None:
+    """an operator is a pytree of its parameters and nothing else: replacing the parameter leaf by a pytree operation
+    (`equinox.tree_at`, `jax.tree.map`, unflatten with other leaves) — as optimisers and `jax.grad` do — gives the operator
+    one would have CONSTRUCTED with the new parameter: same action eagerly, under jit, transposed"""
+    from furax._base.core import HomothetyOperator
+    from furax._base.dense import DenseBlockDiagonalOperator
+    from furax._base.diagonal import DiagonalOperator
+    from furax.landscapes import StokesPyTree
+    from furax.operators.qu_rotations import QURotationOperator
+    from furax.operators.toeplitz import SymmetricBandToeplitzOperator
+    rng = ctx.rng(stream, i)
+    which = ['qurot', 'homothety', 'diagonal', 'toeplitz', 'dense', 'qurot'][i % 6]
+    n = rng.choice([2, 3])
+    s = gen.S(n)
+
+    def arr(shape, scale=1.0):
+        return jnp.asarray(np.array([rng.choice([0.25, 0.5, -0.75, 1.0, 2.0, -1.5]) for _ in range(int(np.prod(shape)))]).reshape(shape) * scale,
+                           dtype=jnp.float32)
+    if which == 'qurot':
+        st_ = StokesPyTree.class_for(rng.choice(['QU', 'IQU', 'IQUV'])).structure_for((n,), jnp.float32)
+        a, b = arr((n,)), arr((n,))
+        mk, field = (lambda p: QURotationOperator(p, st_)), (lambda o: o.angles)
+    elif which == 'homothety':
+        a, b = jnp.asarray(2.0, dtype=jnp.float32), jnp.asarray(-0.5, dtype=jnp.float32)
+        mk, field = (lambda p: HomothetyOperator(p, s)), (lambda o: o.value)
+    elif which == 'diagonal':
+        a, b = arr((n,)), arr((n,))
+        mk, field = (lambda p: DiagonalOperator(p, in_structure=s)), (lambda o: o._diagonal)
+    elif which == 'toeplitz':
+        a, b = arr((2,), 1.0) + 4.0, arr((2,)) + 3.0
+        meth = rng.choice(['dense', 'direct', 'fft', 'overlap_save'])
+        mk, field = (lambda p: SymmetricBandToeplitzOperator(p, s, method=meth)), (lambda o: o.band_values)
+    else:
+        a, b = arr((2, n)), arr((2, n))
+        mk, field = (lambda p: DenseBlockDiagonalOperator(p, s, 'ij...,j...->i...')), (lambda o: o.blocks)
+    op_a, op_b = mk(a), mk(b)
+    x = gen.random_input(rng, op_a.in_structure())
+    cfg = {'class': type(op_a).__name__, 'how': None}
+    st0, want = safe(op_b.mv, x)
+    if st0 != 'ok':
+        return
+    hows = [('tree_at', lambda: equinox.tree_at(field, op_a, b)),
+            ('unflatten', lambda: jax.tree.unflatten(jax.tree.structure(op_b), jax.tree.leaves(op_b)) if False else
+             jax.tree.unflatten(jax.tree.structure(op_a), [b if l is field(op_a) else l for l in jax.tree.leaves(op_a)])),
+            ('tree.map', lambda: jax.tree.map(lambda l: b if l is field(op_a) else l, op_a))]
+    for how, build in hows:
+        st, op2 = safe(build)
+        cfg['how'] = how
+        if st != 'ok':
+            ctx.fail(stream, i, f'leaf-replacement-raises:{which}:{how}:{st}', str(op2)[:150], cfg)
+            continue
+        for mode, fn in (('eager', lambda: op2.mv(x)), ('jit', lambda: jax.jit(lambda v: op2.mv(v))(x)),
+                         ('filter-jit', lambda: equinox.filter_jit(lambda o, v: o.mv(v))(op2, x)),
+                         ('transpose', None)):
+            if mode == 'transpose':
+                y = gen.random_input(rng, op_b.out_structure())
+                stw, wt = safe(lambda: op_b.T.mv(y))
+                stg, gt = safe(lambda: op2.T.mv(y))
+                if stw == 'ok' and (stg != 'ok' or not same_values(wt, gt)):
+                    ctx.fail(stream, i, f'leaf-replacement:{which}:{how}:transpose', f'{type(op_a).__name__} with its parameter replaced by '
+                             f'{how}: the transpose does not act as that of the operator constructed with the new parameter', cfg)
+                continue
+            stg, got = safe(fn)
+            if stg != 'ok' or not same_values(want, got):
+                ctx.fail(stream, i, f'leaf-replacement:{which}:{how}:{mode}', f'{type(op_a).__name__} with its parameter replaced by {how} '
+                         f'({mode}) does not act as the operator constructed with the new parameter', cfg)
+                break
+    ctx.case(f'replace:{which}:{i}', True, sample={'replace': which})
+    ctx.count('replace:' + which)
+
+
 def run(ctx: Ctx) -> None:
     q = ctx.tier == 'quick'
+    for i in range(24 if q else 360):
+        if ctx.want('replace', i):
+            replace_case(ctx, 'replace', i)
     for i in range(120 if q else 2500):
         if ctx.want('op', i):
             op_case(ctx, 'op', i)
@@ -303,6 +377,12 @@ def run(ctx: Ctx) -> None:
     for i in range(90 if q else 630):
         if ctx.want('toeplitz', i):
             op_case(ctx, 'toeplitz', i)
+    for i in range(8 if q else 120):
+        if ctx.want('jitcfg', i):
+            # two lazy inverses whose captured configurations differ in ONE setting, through one shared jitted function
+            # taking the operator as argument (the stream of C19): the static part of the pytree must tell them apart
+            import c19
+            c19.jit_case(ctx, 'jitcfg', i)
     for i in range(16 if q else 300):
         if ctx.want('inverse', i):
             op_case(ctx, 'inverse', i)
